@@ -23,8 +23,11 @@ class AlphaVectorPolicy(ValueBasedTabularPOMDPPolicy):
         if isinstance(belief, Distribution):
             b = [belief.get(s, 0.0) for s in self.pomdp.state_list]
         elif isinstance(belief, Belief):
-            ss, b = belief
-            assert len(ss) == len(b)
+            ss, probs = belief
+            assert len(ss) == len(probs)
+            # a Belief carries its own state labels: read it through them
+            probs = dict(zip(ss, probs))
+            b = [probs.get(s, 0.0) for s in self.pomdp.state_list]
         elif isinstance(belief, (list, tuple, np.array)):
             b = belief
         return b
